@@ -1243,6 +1243,11 @@ func checkC09(c *Check) {
 	c.floor("responder slot rules (shared with C04)", 1, shareRulesWhere(c, checkC04, []string{"O-C04.4"}, "O-C09.2", "responder results: ", func(n string) bool {
 		return strings.Contains(n, "recorded in its slot")
 	}))
+	// a range-over-func iterator that calls yield again after it returned false makes the runtime
+	// panic ("range function continued iteration ..."): the CRL entry iterator stops when told to (O-C10.6)
+	c.floor("iterator protocol rules (shared with C10)", 1, shareRulesWhere(c, checkC10, []string{"O-C10.6"}, "O-C09.4", "entry iterator: ", func(n string) bool {
+		return strings.Contains(n, "stops when told") || strings.Contains(n, "entry list")
+	}))
 	_ = fmt.Sprint
 	_ = nunsup
 }
